@@ -77,6 +77,15 @@ func (i *Index) AddChildren(children []Descriptor) {
 	i.childManifests = append(i.childManifests, children...)
 }
 
+// Children returns a copy of the descriptors tracked as children of nested indexes.
+func (i Index) Children() []Descriptor {
+	children := make([]Descriptor, len(i.childManifests))
+	for ic := range i.childManifests {
+		children[ic] = i.childManifests[ic].Copy()
+	}
+	return children
+}
+
 // Copy returns a deep copy of the index to avoid data races
 func (i Index) Copy() Index {
 	i2 := i
